@@ -38,6 +38,11 @@ CHECKS = {
    text="As C05 for mh_sha1_murmur3_x64_128 with a 64-bit seed per stream: SHA part compared with the multi-hash model, 128-bit part with a MurmurHash3_x64_128 reference (h1=h2=seed), for every fragmentation and family sampled.",
    note="MurmurHash3 reference checked against published vectors at start-up.",
    tech=TECH + ": StreamSim, two reference models at finalize"),
+ "C12": dict(cat="exploration", sec="5 DispatchSim",
+   text="Every dispatched entry point's resolver is executed under seeded, architecturally consistent simulated CPUID/XCR0 assignments biased to fault profiles; the bound target's instruction classes (classifier over the freshly built objects, closed over calls) must be available on the simulated machine, entries sharing an object must bind one family, XGETBV must not execute without OSXSAVE, the resolver must preserve all registers, and real first calls followed by calls under another CPU must keep the binding without re-querying.",
+   note="Hand-written objdump classifier and SDM usability rules; feature classes the dispatchers never test are outside the quantifier; AES entry points have SSE4.1 as documented minimum.",
+   tech=TECH + ": DispatchSim, simulated CPUID/XGETBV behind hook H1"),
+
  "C13": dict(cat="fault_enumeration", sec="5 FipsGateSim",
    text="FIPS_MODE=y build. Every (exported isal_* entry point x injected self-test state/fault kind) pair is enumerated (first call of run i is entry (i/6) mod N under fault kind i mod 6); order, arguments, XTS same-key variants and further injections are seeded. Oracle per call: return code per state, outputs byte-identical after a refusal, self-tests run exactly once in the first approved call, verdict recorded as PASSED/FAILED.",
    note="Faults: _aes_self_tests/_sha_self_tests forced to fail (link-time wrap), KAT corruption of a kernel output behind a dispatch pointer (persistent or transient), preset states. isal_crypto_get_version* are called but not judged.",
